@@ -21,15 +21,15 @@ PID = "C09"
 work = cm.reexec_isolated(PID)
 args = cm.parse_args(sys.argv[1:])
 
-FT = {"OverdampedBrownian": 1, "OverdampedBrownian-HighTemperature": 2, "UnderdampedBrownian": 3, "Value-defined": 9}
+FT = {"OverdampedBrownian": 1, "OverdampedBrownian-HighTemperature": 2, "UnderdampedBrownian": 3, "Underdamped": 4, "Value-defined": 9}
 SAMPLE = [0, 1, 7, 250, 599]
 NT = 600
 
 
-def gen_comp(r, vid, T):
-    kind = r.choice(["OverdampedBrownian", "OverdampedBrownian", "OverdampedBrownian-HighTemperature", "UnderdampedBrownian"])
+def gen_comp(r, vid, T, kind=None):
+    kind = kind or r.choice(["OverdampedBrownian", "OverdampedBrownian", "OverdampedBrownian-HighTemperature", "UnderdampedBrownian", "Underdamped"])
     c = {"ftype": kind, "T": T, "reorg": float(r.choice([10, 20, 35, 50, 80, 120])), "vid": vid}
-    if kind == "UnderdampedBrownian":
+    if kind in ("UnderdampedBrownian", "Underdamped"):
         c["freq"] = float(r.choice([100, 200, 350, 500]))
         c["gamma"] = float(r.choice([10, 20, 40]))
     else:
@@ -53,14 +53,20 @@ def gen_case(r, k):
     comps = []
     # separate malformed stream: exactly one component at another temperature (every fourth case)
     odd_one = r.randrange(ncomp) if k % 4 == 3 else -1
+    # every fifth case: an Underdamped component (built through a SpectralDensity from the component as submitted) at a random
+    # position, inside a composed constructor list in either order, mixed with the Brownian families
+    und = r.randrange(ncomp) if k % 5 == 4 else -1
     for i in range(ncomp):
         T = r.choice([100, 250]) if i == odd_one else Tmain
-        comps.append(gen_comp(r, i, T))
+        comps.append(gen_comp(r, i, T, "Underdamped" if i == und else None))
     # group components into leaves
     leaves = []
     i = 0
     while i < ncomp:
-        if i + 1 < ncomp and r.random() < 0.3:
+        if i + 2 < ncomp and und in (i, i + 1, i + 2) and r.random() < 0.3:
+            leaves.append({"kind": "analytic", "comps": [comps[i], comps[i + 1], comps[i + 2]], "ctx": r.choice(["1/cm", "int", "eV"])})
+            i += 3
+        elif i + 1 < ncomp and (r.random() < 0.3 or (und in (i, i + 1) and r.random() < 0.7)):
             leaves.append({"kind": "analytic", "comps": [comps[i], comps[i + 1]], "ctx": r.choice(["1/cm", "int", "eV"])})
             i += 2
         else:
@@ -194,6 +200,14 @@ def run(chk, cases):
                         lam_int = qr.convert(l["comp"]["reorg"], "1/cm", "int")
                     info[l["comp"]["vid"]] = {"obj": None, "samples": samples_of(vals), "lam": lam_int, "cut": 0.0,
                                               "T": l["comp"]["T"], "ft": 9}
+            # the cut-off time of an Underdamped component is 25 x its `gamma` in the units in which the component was declared
+            # (not a time, and different after a rebuild from the stored internal-units parameters): it is outside the
+            # property's text and is not compared for programs that contain such a component
+            has_und = any(comp["ftype"] == "Underdamped" for l in leaves for comp in (l["comps"] if l["kind"] == "analytic" else []))
+            if has_und:
+                chk.count("cutoff_not_compared:underdamped")
+                for i in info.values():
+                    i["cut"] = 0.0
             for i in info.values():
                 scale = max(scale, max(abs(x) for x in i["samples"]))
                 i["lit"] = "(%d%%nat, %s, %s, %s, %d%%nat)" % (i["ft"], cm.zlit(int(i["T"])), cm.qlit(i["lam"]), cm.qlit(i["cut"]), 0)
@@ -292,7 +306,7 @@ def run(chk, cases):
             else:
                 obs = "(Some (%s, %s, %s, %s, %s, %s))" % (
                     "true" if raised else "false", cm.clist(["%d%%nat" % p.get("vid") for p in res.params]), cm.qlit(res.lamb),
-                    cm.zlit(int(res.temperature)), cm.qlit(res.cutoff_time), cm.clist([cm.qlit(x) for x in samples_of(res.data)]))
+                    cm.zlit(int(res.temperature)), cm.qlit(0.0 if has_und else res.cutoff_time), cm.clist([cm.qlit(x) for x in samples_of(res.data)]))
             if "expr" in prog:
                 ps = "(SExpr %s)" % spec_tree(prog["expr"], info)
             elif "iadd" in prog:
@@ -369,54 +383,95 @@ def extra_monitors(chk, tier):
                 chk.violation("ft_parity", "even/odd Fourier parts are not even/odd: deviations %.3g / %.3g" % (e_dev, o_dev), "monitor", c)
         except Exception as e:
             chk.violation("extra:exception", "measure/parity monitor raised %r" % (e,), "monitor", c)
-    # spectral densities
+    # spectral densities: OverdampedBrownian, UnderdampedBrownian, Underdamped; built alone in several unit contexts; added by
+    # trees of + evaluated inside / outside a context, by += and x += x, and as composed constructor lists in every order
+    import itertools
     ta2 = qr.TimeAxis(0.0, 1000, 1.0)
-    for k in range(8 if tier == "quick" else 60):
+
+    def conv(cc, ctx):
+        d = dict(cc)
+        for key in ("reorg", "freq", "gamma"):
+            if key in d and ctx != "1/cm":
+                d[key] = qr.convert(cc[key], "1/cm", ctx)
+        return d
+
+    def build(arg, ctx):
+        with qr.energy_units(ctx):
+            return qr.SpectralDensity(ta2, arg)
+    for k in range(10 if tier == "quick" else 80):
         ctx = r.choice([None, "1/cm", "eV", "int"])
         comps = []
         for i in range(r.randint(2, 4)):
-            kind = r.choice(["OverdampedBrownian", "UnderdampedBrownian"])
+            kind = r.choice(["OverdampedBrownian", "UnderdampedBrownian", "Underdamped"]) if i or k % 2 else "Underdamped"
             cc = {"ftype": kind, "T": 300, "reorg": float(r.choice([20, 50, 100]))}
             if kind == "OverdampedBrownian":
                 cc["cortime"] = float(r.choice([50, 100]))
             else:
                 cc["freq"], cc["gamma"] = float(r.choice([200, 500])), float(r.choice([10, 30]))
             comps.append(cc)
-        c = {"extra": "specdens", "comps": comps, "ctx": ctx}
+        bctx = [r.choice(["1/cm", "eV", "int"]) for _ in comps]
+        mode = ["plus", "iadd", "iadd_self", "composed"][k % 4]
+        c = {"extra": "specdens", "comps": comps, "ctx": ctx, "built_in": bctx, "mode": mode}
         try:
+            ref = [build(conv(cc, "1/cm"), "1/cm") for cc in comps]          # every component alone, declared in 1/cm
+            sds = [build(conv(cc, b), b) for cc, b in zip(comps, bctx)]       # the operands, declared in their own units
+            want = sum(s.data for s in ref)
+            lam = sum(s.lamb for s in ref)
             with qr.energy_units("1/cm"):
-                sds = [qr.SpectralDensity(ta2, cc) for cc in comps]
-            want = sum(s.data for s in sds)
-            lam = sum(s.lamb for s in sds)
+                decl = sum(cc["reorg"] for cc in comps)
 
-            def tree():
-                left = r.random() < 0.5
-                if left:
+            def prog():
+                if mode == "plus":
+                    if r.random() < 0.5:
+                        acc = sds[0]
+                        for s in sds[1:]:
+                            acc = acc + s
+                    else:
+                        acc = sds[-1]
+                        for s in reversed(sds[:-1]):
+                            acc = s + acc
+                    return [(acc, 1)]
+                if mode == "iadd":
+                    acc = build(conv(comps[0], bctx[0]), bctx[0])
+                    for s in sds[1:]:
+                        acc += s
+                    return [(acc, 1)]
+                if mode == "iadd_self":
                     acc = sds[0]
                     for s in sds[1:]:
                         acc = acc + s
-                else:
-                    acc = sds[-1]
-                    for s in reversed(sds[:-1]):
-                        acc = s + acc
-                return acc
+                    acc += acc
+                    return [(acc, 2)]
+                out = []
+                perms = list(itertools.permutations(range(len(comps))))
+                for pm in (perms if len(perms) <= 6 else r.sample(perms, 6)):
+                    b = r.choice(["1/cm", "eV", "int"])
+                    o = build([conv(comps[j], b) for j in pm], b)
+                    out.append((o, 1))
+                    out.append((o + build(conv(comps[0], "1/cm"), "1/cm"), None))      # a composed left operand is rebuilt, too
+                return out
             if ctx:
                 with qr.energy_units(ctx):
-                    res = tree()
+                    results = prog()
             else:
-                res = tree()
-            chk.case(("specdens", k, json.dumps(comps), ctx), True)
-            chk.count("extra:specdens:%s" % ctx)
-            dev = np.max(np.abs(res.data - want)) / np.max(np.abs(want))
-            if dev > 1e-12 or abs(res.lamb - lam) > 1e-12 * lam:
-                chk.violation("specdens:not_sum", "sum of spectral densities evaluated under units context %r differs from the sum of "
-                              "the components: data %.3g (relative), lamb %r vs %r" % (ctx, dev, res.lamb, lam), "monitor", c)
-            for s, cc in zip(sds, comps):
+                results = prog()
+            chk.case(("specdens", k, json.dumps(comps), ctx, mode), True)
+            chk.count("extra:specdens:%s:%s" % (mode, ctx))
+            for res, mult in results:
+                w, l, dc = (want * mult, lam * mult, decl * mult) if mult else (want + ref[0].data, lam + ref[0].lamb, decl + comps[0]["reorg"])
+                dev = np.max(np.abs(res.data - w)) / np.max(np.abs(w))
                 with qr.energy_units("1/cm"):
-                    s2 = qr.SpectralDensity(ta2, cc)
-                if not np.array_equal(s.data, s2.data):
-                    chk.violation("specdens:operand_changed", "an operand of + was changed", "monitor", c)
+                    got = res.get_reorganization_energy()
+                if dev > 1e-12 or abs(res.lamb - l) > 1e-12 * l or abs(got - dc) > 1e-9 * dc:
+                    chk.violation("specdens:not_sum", "spectral densities %s (declared in %s, %s, evaluated under units context %r) differ from the sum "
+                                  "of the components built alone: data %.3g (relative), lamb %r vs %r, declared reorganisation energy %r vs %r 1/cm"
+                                  % ([cc["ftype"] for cc in comps], bctx, mode, ctx, dev, res.lamb, l, got, dc), "monitor", c)
                     break
+            if mode != "iadd_self":
+                for s, cc, b in zip(sds, comps, bctx):
+                    if not np.array_equal(s.data, build(conv(cc, b), b).data):
+                        chk.violation("specdens:operand_changed", "an operand of + was changed", "monitor", c)
+                        break
         except Exception as e:
             chk.violation("specdens:exception", "spectral density addition raised %r" % (e,), "monitor", c)
 
@@ -424,13 +479,21 @@ def extra_monitors(chk, tier):
 def main():
     chk = cm.Check(PID, args.tier)
     chk.rule = ("random programs: trees of + over 2-6 components (OverdampedBrownian with/without explicit Matsubara count, "
-                "-HighTemperature, UnderdampedBrownian; single and composed leaves; value-defined right operands), x += y, x += x, "
+                "-HighTemperature, UnderdampedBrownian, Underdamped; single and composed leaves (every fifth case an Underdamped component "
+                "inside a composed list); value-defined right operands), x += y, x += x, "
                 "leaves built in 1/cm, eV or internal units, evaluated in a random units context, 7% of components at another "
                 "temperature; non-trivial: >=2 leaves and >=2 distinct component types; distinct by program")
     chk.assumptions = ["the data of one component built alone by the implementation is the oracle `gen` of the model (exact rationals at 5 "
                        "complex sample points)", "measured reorganisation energy and Fourier-part parity are validated numerically only "
-                       "(2% / 1e-9), not proved", "Underdamped, B777, CP29 types are not exercised (not analytic; CP29 prints)"]
+                       "(2% / 1e-9), not proved", "B777 and CP29 types are not exercised (they need further parameters; CP29 prints)",
+                       "static tie: CorrelationFunction.__init__ (initial fields, parameter loop, dispatch loop), the bookkeeping of every _make_xxx, "
+                       "_set_temperature_and_cutoff_time, __add__/__iadd__/add_to_data/add_to_data2 of CorrelationFunction and SpectralDensity are "
+                       "matched statement by statement against templates (harness/translate_c09.py) and their operands proved to be the "
+                       "model's; trusted: the translator, DFunction._add_me (first call sets, later calls add), the formulas inside the makers "
+                       "(the oracle gen) and unit conversion of the stored parameter sets"]
     chk.prove()
+    import translate
+    translate.static_tie(cm, chk, PID, cm.REPO)      # second, static tie: operands of the addition code regenerated from the source
     if args.replay:
         rep = json.load(open(args.replay))
         cases = [rep["input"]] if isinstance(rep.get("input"), dict) and "prog" in rep["input"] else []
